@@ -32,7 +32,7 @@ REAL = ["bec2format.bec2file (InitEccAuthBlock, EccEncryptor, EccDecryptor)", "b
         "ecdsa (keys, ecdh, ellipticcurve, util.randrange)", "pyaes"]
 STUBS = ["RNG: SimRng behind os.urandom shims", "key generation observer (register_PrivateEccKey)",
          "device model: RefP256 + RefAES", "openssl binary (thorough tier sample)"]
-PROBES = ["runs-with-assertions-disabled", "file-level-pack", "ext-encryptors-not-a-list", "shared-encryptor-two-threads", "keystore-decoys", "default-recipient", "selector-nonzero-default", "edge-recipient-scalar", "edge-ephemeral-scalar",
+PROBES = ["runs-with-assertions-disabled", "selector-changed-between-packs", "file-level-pack", "ext-encryptors-not-a-list", "shared-encryptor-two-threads", "keystore-decoys", "default-recipient", "selector-nonzero-default", "edge-recipient-scalar", "edge-ephemeral-scalar",
           "randrange-retry", "session-key-trailing-zero", "point-off-curve-rejected", "point-coordinate-ge-p",
           "point-zero", "point-negated-still-on-curve", "openssl-agrees"]
 THOROUGH_ONLY_PROBES = ["openssl-agrees"]
@@ -278,6 +278,22 @@ def run(case):
                     out.probes["openssl-agrees"] += 1
                 else:
                     out.fail("C09.refmodel", "openssl", "RefP256 ECDH disagrees with openssl (harness model error)")
+        # ---- the same block object packed again after its public key_selector attribute was changed ----
+        if case["recip"] is None and case["rng"] % 3 == 0:
+            sel2 = (sel + 1 + case["rng"] % 3) % 4
+            block.key_selector = sel2
+            try:
+                raw2 = block.pack(skey, [])
+                k2s = prov.device_unwrap({"t": "ecc", "sel": sel2, "recip": None}, 3, raw2, eph_scalar=obs.generated[-1][0])
+            except Exception as e:
+                out.fail("C09.device", "repack-" + type(e).__name__, "re-packing the block object after changing its key "
+                         "selector to %d failed: %s" % (sel2, e))
+            else:
+                out.probes["selector-changed-between-packs"] += 1
+                if k2s != skey:
+                    out.fail("C09.device", "repack-wrong-key-default", "block object re-packed after its key selector was "
+                             "changed from %d to %d: the published key of selector %d does not open it" % (sel, sel2, sel2))
+            block.key_selector = sel
         # ---- the same through the file-level API (Bec2File.to_binary), same kind of container ----
         if case.get("container", "list") != "list" or case["rng"] % 4 == 0:
             ext2 = {"list": list, "tuple": tuple, "iter": iter, "generator": lambda x: (e for e in x)}[kind_](ext)
